@@ -44,6 +44,21 @@ class VwTwoVar:
     c: tuple[int, ...] = ()
 
 @dataclasses.dataclass
+class VwParent:
+    name: str
+    children: "list[VwChild]" = dataclasses.field(default_factory=list)
+
+@dataclasses.dataclass
+class VwChild:
+    n: int
+    parent: "VwParent" = None  # names, directly, a class that is still being built further up the same graph
+
+@dataclasses.dataclass
+class VwSelf:
+    v: int
+    left: "VwSelf" = None
+
+@dataclasses.dataclass
 class VwAnyFields:
     a: typing.Any
     b: object = None
@@ -60,7 +75,7 @@ RAW = [
     ("typing.Tuple", False), ("typing.Set", False), ("typing.Sequence", False), ("typing.Mapping", False),
     ("VwTB", False), ("VwTC", False), ("type[int]", False), ("typing.Type[str]", False), ("type", False),
     ("VwG[int]", False), ("VwG", False), ("VwGD[str]", False), ("VwGD", False), ("VwNoAnn", False), ("VwEmpty", False), ("VwTwoVar", False),
-    ("VwAnyFields", False),
+    ("VwAnyFields", False), ("VwParent", False), ("VwChild", False), ("VwSelf", False), ("list[VwParent]", False), ("dict[str, VwSelf]", False),
     ("list[typing.Any]", False), ("dict[str, typing.Any]", False), ("tuple[typing.Any, ...]", False), ("list[VwT]", False),
     ("typing.Optional[typing.Any]", False), ("dict[str, object]", False), ("tuple[int, typing.Any]", False), ("list[VwG[int]]", False),
     ("dict[str, typing.Callable[..., int]]", False), ("tuple[tuple[int, ...], tuple[str, ...], tuple[int, ...]]", False),
@@ -68,6 +83,8 @@ RAW = [
     ("set[VwTC]", False), ("typing.Final[typing.Any]", False), ("typing.ClassVar[list]", False), ("list[type[int]]", False),
 ]
 PROBES = [None, 1, "a", "1", {"$f": "1.5"}, True, {"$list": [1, "a", None]}, {"$dict": [["a", 1]]}, {"$tuple": [1, 2]}, {"$list": []}, {"$dict": []},
+          {"$dict": [["name", "p"], ["children", {"$list": [{"$dict": [["n", 1], ["parent", {"$dict": [["name", "q"], ["children", {"$list": []}]]}]]}]}]]},
+          {"$dict": [["v", 1], ["left", {"$dict": [["v", 2], ["left", {"$dict": [["v", 3]]}]]}]]}, {"$dict": [["n", 1], ["parent", {"$dict": [["name", "q"]]}]]},
           {"$dict": [["x", 1], ["n", 2]]}, {"$dict": [["a", 5], ["b", "y"]]}, {"$list": [{"$list": [1]}]}, {"$b": "6162"}, {"$set": [1]}]
 
 
@@ -266,6 +283,11 @@ class C15(PropBase):
             if not out.ok or not (out.value is x or model.canon(out.value) == model.canon(sess.V(step["x"]))):
                 sess.violation("not-pass-through", i, {"t": tsrc, "x": repr(step["x"])[:80], "got": repr(out)[:120]}, sig=f"not-pass-through:{_tclass(step['t'])}")
                 return
+        if out.ok and step["dir"] == "unmarshal":
+            raw = _raw_member(out.value)
+            if raw is not None:
+                sess.violation("resolvable-position-passed-through", i, {"t": tsrc, "x": repr(step["x"])[:100], "where": raw}, sig=f"resolvable-passed-through:{_tclass(step['t'])}")
+                return
         key = core.jdump([step["t"], step["x"], step["dir"]])
         mine = out.canon()
         if core.jdump(step["t"]) in sess.scanned:
@@ -287,6 +309,46 @@ class C15(PropBase):
         if not out.ok and isinstance(out.exc, (KeyError, NameError, AttributeError, RuntimeError)) and _construction_error(out.exc):
             sess.violation("build-raised", i, {"t": tsrc, "via": "probe", "exc": f"{type(out.exc).__name__}: {out.exc}"[:240]},
                            sig=f"build-raised-in-probe:{type(out.exc).__name__}:{_tclass(step['t'])}")
+
+
+def _raw_member(res, path="$", depth=0):
+    """In a converted result: a dataclass field whose annotation names a dataclass but which still
+    holds a raw mapping (the position is resolvable, so it must have been converted)."""
+    import dataclasses
+    import typing
+
+    if depth > 12:
+        return None
+    if isinstance(res, (list, tuple)):
+        for j, e in enumerate(res):
+            r = _raw_member(e, f"{path}[{j}]", depth + 1)
+            if r:
+                return r
+        return None
+    if isinstance(res, dict):
+        for k, e in res.items():
+            r = _raw_member(e, f"{path}[{k!r}]", depth + 1)
+            if r:
+                return r
+        return None
+    if dataclasses.is_dataclass(res) and not isinstance(res, type):
+        try:
+            hints = typing.get_type_hints(type(res))
+        except Exception:  # noqa: BLE001
+            return None
+        for f in dataclasses.fields(res):
+            h = hints.get(f.name)
+            v = getattr(res, f.name, None)
+            if dataclasses.is_dataclass(h) and isinstance(v, dict):
+                return f"{path}.{f.name}: {type(v).__name__} where {h.__name__} is declared"
+            if typing.get_origin(h) is list and typing.get_args(h) and dataclasses.is_dataclass(typing.get_args(h)[0]) and isinstance(v, list):
+                for j, e in enumerate(v):
+                    if isinstance(e, dict):
+                        return f"{path}.{f.name}[{j}]: dict where {typing.get_args(h)[0].__name__} is declared"
+            r = _raw_member(v, f"{path}.{f.name}", depth + 1)
+            if r:
+                return r
+    return None
 
 
 def _construction_error(exc) -> bool:
